@@ -296,8 +296,8 @@ PROPS = {
         title='Zinc encode -> decode returns the original value',
         verus=[('u_zparse', [r'^lemma_keyword_roundtrip$', r'^Lexer::read$', r'^parse_literal$', r'^parse_str_escape$', r'^lemma_lit_run_bytes$',
                              r'^parse_str$', r'^parse_str_unicode_escape$', r'^lemma_str_body_plain$', r'^lemma_hex4_value$', r'^lemma_str_body_char$',
-                             r'^lemma_str_body_enc$', r'^lemma_str_roundtrip$']),
-               ('u_enc', [r'^write_quoted_str$', r'^Str::to_zinc$', r'^lemma_str_escape_inverse$', r'^Marker::to_zinc$', r'^Remove::to_zinc$', r'^Na::to_zinc$', r'^Bool::to_zinc$', r'^Number::to_zinc$'])],
+                             r'^lemma_str_body_enc$', r'^lemma_str_roundtrip$', r'^parse_ref$', r'^lemma_ref_run_prefix$', r'^lemma_ref_roundtrip$']),
+               ('u_enc', [r'^write_quoted_str$', r'^Str::to_zinc$', r'^Ref::to_zinc$', r'^lemma_str_escape_inverse$', r'^Marker::to_zinc$', r'^Remove::to_zinc$', r'^Na::to_zinc$', r'^Bool::to_zinc$', r'^Number::to_zinc$'])],
         kani=[dict(harness='k_zinc_keywords', klass='complete', schema=['u8'], family=None, target='to_zinc of Marker/Remove/Na/Bool')],
         witness='enum:zinc-roundtrip-scalars',
         design_ref='DESIGN.md section 4, C01',
@@ -306,11 +306,14 @@ PROPS = {
                     'enc written from the grammar; on the real parse_str / parse_str_escape / parse_str_unicode_escape that the result is the '
                     'UTF-8 decoding of str_body(bytes after the opening quote), a byte-level spec of a string body; on the real Lexer::read that '
                     'a token starting with a quote is that Str; and lemma_str_roundtrip proves utf8_decode(str_body(enc(s) + " + anything)) == s. '
+                    '(1b) Refs with and without display name: Ref::to_zinc emits @id [space "enc(dis)"], parse_ref reads @ + the maximal run of '
+                    'ref bytes as the id and a following space-quote as a Zinc string display name, and lemma_ref_roundtrip composes them for '
+                    'every id over the ref alphabet and every display name. '
                     '(2) Keyword-valued scalars (Marker, Remove, NA, true, false; Null on the reader side): the real writers emit M R NA T F '
                     '(Verus after rule R18, and Kani), Lexer::read maps a capitalised literal through the grammar\'s keyword table, and '
                     'lemma_keyword_roundtrip composes them.'),
-        not_decided=('Ref display names and XStr values reuse the proved quoted-string writer and reader but their own framing (@id, Type( )) is '
-                     'proved panic-free only; Uri, Symbol; Number, Coord, Date, Time, DateTime (core::fmt / chrono text); List, Dict and Grid '
+        not_decided=('XStr (its value reuses the proved quoted-string writer and reader; the Type( ) framing is proved panic-free only); Uri, Symbol; '
+                     'the Ref reader clause assumes an empty peek stash at the start of the token (true after every token the lexer produces, not proved); Number, Coord, Date, Time, DateTime (core::fmt / chrono text); List, Dict and Grid '
                      'layout (enumerate() loops); nesting. Assumed: the UTF-8 axioms of strspec.vt, the two core::fmt helper contracts used by '
                      'the string writer (\\u{:04x} of a code point, {} of one character), u16::from_str_radix and String::from_utf16_lossy. '
                      'Known outside the decided part: a grid with meta is written with the meta after the newline and does not decode; '
